@@ -112,6 +112,10 @@ def _store(files, cname):
 # ------------------------------------------------------------------ tasks (run in forked children)
 
 
+_RNGREF = {}
+_MUST = {}  # (cname, state key) -> True when a checkpoint had been published before the crash that left this image
+
+
 def t_recover(item):
     cname, key, sdir = item
     cfg = _CFG[cname]
@@ -120,10 +124,19 @@ def t_recover(item):
     try:
         work = os.path.join(wd, "w")
         shutil.copytree(sdir, work)
+        had = os.path.exists(os.path.join(work, "md.restart.pt"))
         info, res = CR.recover(work, cfg, nmol)
+        rng_log = info.pop("rng_log", [])
         prob = []
+        if _MUST.get((cname, key)) and not had:
+            prob.append("no checkpoint on disk although one had been published before the process died (checkpoint publication is not atomic)")
         if info.get("checkpoint_error"):
             prob.append(info["checkpoint_error"])
+        if cfg["engine"] in CR.DRAWING_ENGINES and had and cname in _RNGREF:
+            ref = dict(_RNGREF[cname])
+            bad = [(i, h) for i, h in rng_log if ref.get(i) is not None and ref[i] != h]
+            if bad:
+                prob.append(f"random-number state at the start of resumed step {bad[0][0]} differs from the uninterrupted run (RNG state not restored)")
         if res is None:
             return {"problems": prob or ["recovery impossible"], "info": info}
         if res.get("error"):
@@ -212,7 +225,7 @@ def _desc(cname, cfg, via, problems, info):
         "had_checkpoint": bool(info.get("had_checkpoint")), "xyz_on": cfg["out"]["xyz"] > 0,
         "problem_class": (
             "xyz-duplicated" if "duplicated frames" in p0 else "xyz" if p0.startswith("xyz") else
-            "checkpoint" if "checkpoint" in p0 else "h5-steps" if "steps" in p0 else "h5-values" if p0.startswith("h5") else "recovery"
+            "rng" if "random-number state" in p0 else "checkpoint" if "checkpoint" in p0 else "h5-steps" if "steps" in p0 else "h5-values" if p0.startswith("h5") else "recovery"
         ),
     }  # fmt: skip
 
@@ -267,7 +280,16 @@ def explore_all(chk, spaces, tier):
                 chk.harness_error(f"{sp.cname}: journal replay does not reproduce {name}")
                 return
         _REF[sp.cname] = MD.collect(os.path.join(rundir, "md"), range(nmol))
+        try:
+            import json as _json
+
+            with open(os.path.join(_ROOT, sp.cname, "rnglog.json")) as fh:
+                _RNGREF[sp.cname] = [tuple(x) for x in _json.load(fh)]
+        except OSError:
+            pass
         sp.ops = ops
+        published = [i for i, o in enumerate(ops) if o["kind"] == 3 and o["payload"] == "md.restart.pt"]
+        first_pub = published[0] + 1 if published else None  # number of ops after which a checkpoint exists
         # depth 1a: journal prefixes and torn page splits
         for n in range(0, len(ops) + 1):
             files = CR.apply_ops(ops[:n])
@@ -275,6 +297,8 @@ def explore_all(chk, spaces, tier):
             sp.edges += 1
             burst = 0 < n < len(ops) and all(o["kind"] == 1 and o["path"].endswith(".h5") for o in (ops[n - 1], ops[n]))
             sp.add(k, d, 1, f"journal-prefix#{n}{'(h5-burst)' if burst else ''}:hard")
+            if first_pub is not None and n >= first_pub:
+                _MUST[(sp.cname, k)] = True
             if n > 0 and ops[n - 1]["kind"] == 3:
                 sp.boundary.add(k)
             if n > 0 and ops[n - 1]["kind"] in (1, 2) and len(ops[n - 1]["payload"]) > 4096:
@@ -328,6 +352,8 @@ def explore_all(chk, spaces, tier):
             if not r["fired"]:
                 continue
             sp.edges += 1
+            if os.path.exists(os.path.join(sp.states[k]["dir"], "md.restart.pt")):
+                _MUST[(sp.cname, r["key"])] = True  # the run that was crashed had been resumed from a checkpoint
             if sp.add(r["key"], r["dir"], depth, via0 + f"{c[0]}#{c[1]}:{c[2]}:{c[3]}"):
                 new[sp.cname].append(r["key"])
         frontier = new
